@@ -66,6 +66,25 @@ pub(crate) fn stepped() -> bool {
     s
 }
 
+thread_local! {
+    static STOP_GAP_MS: Cell<u64> = Cell::new(0);
+}
+
+/// End-to-end scenarios: the server's command loop (running on the CALLING thread) pauses for `ms` milliseconds
+/// between waking the accept thread with `Stop` and sending `Stop` to the workers - a preemption of the server thread at
+/// that point, made long enough for the other threads to run.
+pub fn set_stop_gap_ms(ms: u64) {
+    STOP_GAP_MS.with(|c| c.set(ms));
+}
+
+/// Called by `handle_cmd(Stop)` right after the accept thread has been told to stop.
+pub(crate) fn stop_gap() {
+    let ms = STOP_GAP_MS.with(|c| c.get());
+    if ms > 0 {
+        std::thread::sleep(Duration::from_millis(ms));
+    }
+}
+
 /// Yield point inside the accept thread.
 pub(crate) fn point(kind: &'static str, arg: usize) {
     if !STEPPED.with(|c| c.get()) {
@@ -504,6 +523,8 @@ struct Env {
     engine_errors: Vec<String>,
     /// accepted connections the accept thread dropped without dispatching them: (cid, no handle was left)
     dropped: Vec<(usize, bool)>,
+    /// per applied `Finish`: (cid, the connection's service future was alive at that moment)
+    finish_log: Vec<(usize, bool)>,
 }
 
 pub struct Sim {
@@ -512,6 +533,9 @@ pub struct Sim {
     /// With `false` every iteration is forced by a bare wake of the poller.
     pub faithful: bool,
     pub blocked_iterations: usize,
+    /// what the last call of `iterate*` did: (an iteration of the real loop ran, it was started by a bare wake,
+    /// indices of anchored actions whose yield point was not reached and that were applied afterwards)
+    pub last_iter: (bool, bool, Vec<usize>),
     st: Stepped,
     env: Rc<RefCell<Env>>,
     pub exited: bool,
@@ -567,6 +591,7 @@ pub struct Snap {
     pub dropped: Vec<(usize, bool)>,
     pub engine_errors: Vec<String>,
     pub scripts_empty: bool,
+    pub finish_log: Vec<(usize, bool)>,
 }
 
 fn interest_name(i: &WakerInterest) -> String {
@@ -661,6 +686,8 @@ impl Env {
                 let key = self.clients[*cid].key.clone();
                 let w = {
                     let mut s = self.sh.lock().unwrap();
+                    let live = s.live.contains_key(&key);
+                    self.finish_log.push((*cid, live));
                     s.finish.insert(key.clone());
                     s.conn_wakers.remove(&key)
                 };
@@ -918,6 +945,8 @@ impl Env {
             .collect();
         for i in due {
             self.anchored[i].3 = true;
+            // marker for the strict trace: anchored action i was applied right after this yield point
+            self.points.push(("fired".to_string(), i));
             let act = self.anchored[i].2.clone();
             // a panic of the ENGINE while applying an environment action must not be mistaken for a panic of the
             // accept thread: it is recorded and turned into a tool error by the driver
@@ -1000,6 +1029,7 @@ impl Sim {
             svc_seen: 0,
             engine_errors: vec![],
             dropped: vec![],
+            finish_log: vec![],
         };
         let mut handles = vec![];
         for idx in 0..cfg.workers {
@@ -1020,6 +1050,7 @@ impl Sim {
         Ok(Sim {
             faithful: true,
             blocked_iterations: 0,
+            last_iter: (false, false, vec![]),
             st,
             env: Rc::new(RefCell::new(env)),
             exited: false,
@@ -1047,6 +1078,7 @@ impl Sim {
     }
 
     fn iterate_opt(&mut self, anchored: Vec<(String, usize, Act)>, bare_wake: bool) -> usize {
+        self.last_iter = (false, false, vec![]);
         if self.exited || self.panicked.is_some() {
             return 0;
         }
@@ -1065,6 +1097,8 @@ impl Sim {
                 for (_, _, a) in anchored.iter() {
                     e.apply(a);
                 }
+                drop(e);
+                self.last_iter = (false, false, (0..n).collect());
                 return n;
             }
             // timer_due: the poll timeout has elapsed in virtual time; the bare wake stands in for the time-out
@@ -1103,6 +1137,7 @@ impl Sim {
         POINT_CB.with(|c| *c.borrow_mut() = None);
         ACCEPTED_CB.with(|c| *c.borrow_mut() = None);
         self.iterations += 1;
+        self.last_iter = (true, bare_wake, vec![]);
         match r {
             Ok(()) => {
                 if !ITER_DONE.with(|c| c.get()) {
@@ -1129,6 +1164,7 @@ impl Sim {
             let no_handle = self.st.snapshot(e.cfg.workers).handles.is_empty();
             e.dropped.push((cid, no_handle));
         }
+        self.last_iter.2 = e.anchored.iter().enumerate().filter(|(_, a)| !a.3).map(|(i, _)| i).collect();
         let missed: Vec<Act> = e
             .anchored
             .iter()
@@ -1269,6 +1305,7 @@ impl Sim {
         s.engine_errors = e.engine_errors.clone();
         s.replaced = e.replaced.clone();
         s.skipped = e.skipped.clone();
+        s.finish_log = e.finish_log.clone();
         s
     }
 
